@@ -112,8 +112,13 @@ TPairLose == Ev("pair_lose") /\ lk.on /\ lk.t = "pair" /\ lk' = Pair(lk.qC, lk.q
 TPairEnd == /\ Ev("pair_end") /\ lk.on /\ lk.t = "pair" /\ lk' = NoLink
             /\ E.obs.opensC = 1 /\ E.obs.opensS = 1 /\ E.obs.closesC = 1 /\ E.obs.closesS = 1      \* told exactly once
 
+\* a valid handshake followed by valid frames, as one octet stream under some segmentation: everything arrives, in order
+TStream == /\ Ev("stream") /\ UNCHANGED lk
+           /\ E.obs.esc = "" /\ E.obs.attached = 1 /\ ~E.obs.dropped
+           /\ E.obs.delivered = E.count /\ E.obs.intact
+           /\ E.obs.opens = 1 /\ E.obs.closes = 1
 TScenario == Ev("scenario") /\ UNCHANGED lk          \* the script that produced the following events (for replay files)
-TNext == TScenario \/ TRsHs \/ TWsNeg \/ TLinkOpen \/ TLinkSend \/ TLinkRecv \/ TLinkInject \/ TLinkEnd
+TNext == TScenario \/ TStream \/ TRsHs \/ TWsNeg \/ TLinkOpen \/ TLinkSend \/ TLinkRecv \/ TLinkInject \/ TLinkEnd
          \/ TPairOpen \/ TPairSend \/ TPairRx \/ TPairInject \/ TPairLose \/ TPairEnd
 TraceSpec == TInit /\ [][TNext]_tvars
 Progress == TLCSet(tid, IF TLCGet(tid) < l THEN l ELSE TLCGet(tid))
